@@ -50,7 +50,7 @@ def spec_strategy():
         'ec': st.one_of(specs.logfloat(-3, 3, 6), st.sampled_from([2.48, 1.0])),
         'ec_unit': st.sampled_from(sorted(ENERGY_UNITS)),
         'mc': specs.logfloat(-2, 3, 5), 'mc_unit': st.sampled_from(MASS_UNITS),
-        'arg': arg, 'diameter': st.one_of(specs.logfloat(-2, 2, 6), st.sampled_from([1.0, 2])),
+        'arg': arg, 'diameter': st.one_of(specs.logfloat(-2, 2, 6), specs.logfloat(-2, 2, 6), st.sampled_from([1.0, 2, 0.0, 0])),
         'scale': st.one_of(specs.logfloat(-2, 2, 5), st.sampled_from([-1.0, 3.0])),
         'other': st.one_of(st.none(), st.fixed_dictionaries({'dc': specs.logfloat(-3, 3, 6), 'dc_unit': st.sampled_from(sorted(LENGTH_UNITS)),
                                                            'ec': specs.logfloat(-3, 3, 6), 'ec_unit': st.sampled_from(sorted(ENERGY_UNITS))}))})
